@@ -32,11 +32,18 @@ type gen struct {
 
 func (g *gen) bytesItem() []byte {
 	r := g.r
-	switch r.Intn(6) {
+	switch r.Intn(8) {
 	case 0:
 		return []byte{}
 	case 1:
 		return r.Bytes(1)
+	case 2:
+		// 32 bytes: the widest number; with the top bit set it is out of range for the numeric instructions
+		b := r.Bytes(32)
+		if r.Bool() {
+			b[31] |= 0x80
+		}
+		return b
 	}
 	return r.Bytes(r.Range(1, 24))
 }
@@ -50,7 +57,11 @@ func (g *gen) predicate() []byte {
 		cat = 0x89
 	}
 	var p []byte
-	switch r.Intn(7) {
+	switch r.Intn(9) {
+	case 7: // a numeric instruction on the top item of a copy: the child may fail on it (out of range), the parent goes on
+		p = append(p, 0x76, []byte{0x8b, 0x8c, 0x8f, 0x90, 0x91}[r.Intn(5)], 0x75)
+	case 8: // arithmetic on the two top items
+		p = append(p, 0x6e, []byte{0x93, 0x94, 0x9c, 0xa3, 0xa4}[r.Intn(5)], 0x75)
 	case 0: // extend the top item
 		p = append(append(p, x...), cat)
 	case 1: // cut then extend
@@ -176,7 +187,11 @@ func (g *gen) next(data, alt [][]byte) []byte {
 		}
 		return p
 	}
-	switch r.Intn(6) {
+	switch r.Intn(8) {
+	case 6, 7:
+		// numeric instructions read the top item(s) as numbers (and may refuse them as out of range):
+		// reading is not writing
+		return []byte{[]byte{0x8b, 0x8c, 0x8f, 0x90, 0x91, 0x92, 0x93, 0x94, 0x95, 0x9c, 0x9f, 0xa3, 0xa4, 0xa5}[r.Intn(14)]}
 	case 0:
 		return []byte{0x83} // INVERT
 	case 1:
